@@ -604,6 +604,7 @@ func (x *Exec) applyContract(e *ast.CallExpr, st *State, fn *types.Func, c *Cont
 		}
 	}
 	pre := st.clone()
+	x.factSink = st
 	ctx := &cctx{x: x, st: st, old: pre, env: env, callee: c}
 	for _, l := range c.Lets {
 		r := ctx.with(l.C).eval(l.C.Expr)
